@@ -42,6 +42,7 @@ func runC05(c *Ctx) {
 	c.Floor("C05.R3.PA1", n1, 4, "attack-pattern ∩ piece-set sites in IsAttacked")
 	c05R5(c, p)
 	c05R6(c, p)
+	c05R7(c, p)
 }
 
 // ---------- path enumeration ----------
@@ -973,4 +974,217 @@ func moveOrigin(v ssa.Value, sources []string, seen map[ssa.Value]bool, depth in
 		return bad
 	}
 	return v
+}
+
+// ---------- R7 generator target sets are exactly what the acceptor tests ----------
+//
+// For knights, bishops, rooks, queens and ordinary king steps IsPseudoLegal
+// accepts (from holds an own piece of the kind) ∧ (to not own) ∧ (to on the
+// piece's attack pattern). The generator must emit exactly that set: its target
+// set is pattern & ^self & toMsk with no further restriction (the two halves'
+// toMsk are complementary: C01.R2), and its source set self & Pieces[K] & fromMsk.
+
+func andLeaves(v ssa.Value, neg bool, out *[]struct {
+	V   ssa.Value
+	Neg bool
+}) {
+	v = stripConv(v)
+	if bo, ok := v.(*ssa.BinOp); ok && !neg {
+		switch bo.Op {
+		case token.AND:
+			andLeaves(bo.X, false, out)
+			andLeaves(bo.Y, false, out)
+			return
+		case token.AND_NOT:
+			andLeaves(bo.X, false, out)
+			orLeavesNeg(bo.Y, out)
+			return
+		}
+	}
+	if u, ok := v.(*ssa.UnOp); ok && u.Op == token.XOR && !neg {
+		orLeavesNeg(u.X, out)
+		return
+	}
+	*out = append(*out, struct {
+		V   ssa.Value
+		Neg bool
+	}{v, neg})
+}
+
+// ^(a|b) == ^a & ^b
+func orLeavesNeg(v ssa.Value, out *[]struct {
+	V   ssa.Value
+	Neg bool
+}) {
+	v = stripConv(v)
+	if bo, ok := v.(*ssa.BinOp); ok && bo.Op == token.OR {
+		orLeavesNeg(bo.X, out)
+		orLeavesNeg(bo.Y, out)
+		return
+	}
+	*out = append(*out, struct {
+		V   ssa.Value
+		Neg bool
+	}{v, true})
+}
+
+func isGenField(v ssa.Value, field string) bool {
+	v = stripConv(v)
+	switch x := v.(type) {
+	case *ssa.UnOp:
+		if x.Op != token.MUL {
+			return false
+		}
+		fa, ok := x.X.(*ssa.FieldAddr)
+		if !ok {
+			return false
+		}
+		fr, ok := asFieldAddr(fa)
+		return ok && fr.Struct != nil && fr.Struct.Obj().Name() == "generator" && fr.Field.Name() == field
+	case *ssa.Field:
+		n, s := structOf(x.X.Type())
+		return s != nil && n != nil && n.Obj().Name() == "generator" && s.Field(x.Field).Name() == field
+	}
+	return false
+}
+
+func c05R7(c *Ctx, p *Prog) {
+	const rule = "C05.R7"
+	pk := p.Pkg("movegen")
+	if pk == nil {
+		c.Anchor(rule, "package movegen")
+		return
+	}
+	gt, _ := pk.Types.Scope().Lookup("generator").(*types.TypeName)
+	if gt == nil {
+		c.Anchor(rule, "movegen.generator")
+		return
+	}
+	named := gt.Type().(*types.Named)
+	n := 0
+	for i := 0; i < named.NumMethods(); i++ {
+		m := named.Method(i)
+		sig := m.Type().(*types.Signature)
+		nbb := 0
+		for j := 0; j < sig.Params().Len(); j++ {
+			if isBitBoardType(sig.Params().At(j).Type()) {
+				nbb++
+			}
+		}
+		if nbb < 2 {
+			continue // pawn moves and castling have their own rules (R2, R4)
+		}
+		fn := p.Func(objName(m))
+		if fn == nil {
+			continue
+		}
+		// the target-mask parameter: last BitBoard parameter; source mask: the one before
+		var bbParams []*ssa.Parameter
+		for _, pr := range fn.Params {
+			if isBitBoardType(pr.Type()) {
+				bbParams = append(bbParams, pr)
+			}
+		}
+		fromMsk, toMsk := bbParams[len(bbParams)-2], bbParams[len(bbParams)-1]
+		var calls []*ssa.Call
+		allInstrs(fn, func(in ssa.Instruction) {
+			if call, ok := in.(*ssa.Call); ok {
+				if _, ok := attackFns[objName(calleeObj(call))]; ok {
+					calls = append(calls, call)
+				}
+			}
+		})
+		if len(calls) == 0 {
+			c.Undec(rule, objName(m)+"#targets", fn.Pos(), "no attack pattern call found")
+			continue
+		}
+		// top of the &-chain the (or-ed) pattern flows into
+		var pat ssa.Value = calls[0]
+		if refs := calls[0].Referrers(); refs != nil {
+			for _, r := range *refs {
+				if bo, ok := r.(*ssa.BinOp); ok && bo.Op == token.OR {
+					pat = bo
+				}
+			}
+		}
+		_, top := andConjuncts(pat)
+		var leaves []struct {
+			V   ssa.Value
+			Neg bool
+		}
+		andLeaves(top, false, &leaves)
+		var sawPat, sawSelf, sawTo bool
+		var extra []string
+		for _, lf := range leaves {
+			switch {
+			case !lf.Neg && stripConv(lf.V) == stripConv(pat):
+				sawPat = true
+			case lf.Neg && isGenField(lf.V, "self"):
+				sawSelf = true
+			case !lf.Neg && stripConv(lf.V) == ssa.Value(toMsk):
+				sawTo = true
+			default:
+				pre := ""
+				if lf.Neg {
+					pre = "^"
+				}
+				extra = append(extra, pre+lf.V.Name())
+			}
+		}
+		n++
+		key := objName(m) + "#targets"
+		switch {
+		case !sawPat || !sawSelf || !sawTo:
+			c.Fail(rule, key, calls[0].Pos(), "generator target set is not pattern & ^self & toMsk (pattern: %v, own pieces excluded: %v, target mask applied: %v): it emits moves the acceptor rejects, or the two halves overlap", sawPat, sawSelf, sawTo)
+		case len(extra) > 0:
+			c.Fail(rule, key, calls[0].Pos(), "generator target set carries an extra restriction (%s) that IsPseudoLegal does not test: the acceptor accepts encodings the generator never emits (a transposition-table move of that shape is played although it is not a generated move, and the picker then suppresses nothing)", strings.Join(extra, ", "))
+		default:
+			c.Ok(rule, key, calls[0].Pos(), "target set is exactly attack pattern & ^self & toMsk")
+		}
+		// source set: phi seeded with self & Pieces[K] & fromMsk
+		pcs := pieceConsts(p)
+		okSrc := false
+		allInstrs(fn, func(in ssa.Instruction) {
+			bo, ok := in.(*ssa.BinOp)
+			if !ok || bo.Op != token.AND {
+				return
+			}
+			var ls []struct {
+				V   ssa.Value
+				Neg bool
+			}
+			andLeaves(bo, false, &ls)
+			var s, pc, fm, other bool
+			for _, lf := range ls {
+				switch {
+				case !lf.Neg && isGenField(lf.V, "self"):
+					s = true
+				case !lf.Neg && stripConv(lf.V) == ssa.Value(fromMsk):
+					fm = true
+				default:
+					if _, ok := piecesLoadKind(lf.V, pcs); ok && !lf.Neg {
+						pc = true
+					} else {
+						other = true
+					}
+				}
+			}
+			if s && pc && fm && !other {
+				okSrc = true
+			}
+		})
+		c.Check(okSrc, rule, objName(m)+"#sources", fn.Pos(), "source set is exactly self & Pieces[K] & fromMsk")
+	}
+	c.Floor(rule, n, 5, "piece generators with a target mask")
+}
+
+func init() {
+	addMutants(
+		Mutant{Name: "C05.R7-king-steps-next-to-enemy-king-not-generated", Prop: "C05", File: "movegen/movegen.go",
+			Old: "\t\ttSqrs := attacks.KingMoves(from) & ^g.self & toMsk\n", New: "\t\tcontact := attacks.KingMoves((g.them & b.Pieces[King]).LowestSet())\n\n\t\ttSqrs := attacks.KingMoves(from) & ^(g.self | contact) & toMsk\n",
+			Expect: "C05.R7/movegen.(generator).kingMoves#targets"},
+		Mutant{Name: "C05.R7-knight-captures-own-pieces", Prop: "C05", File: "movegen/movegen.go",
+			Old: "tSqrs := attacks.KnightMoves(from) & ^g.self & toMsk", New: "tSqrs := attacks.KnightMoves(from) & toMsk",
+			Expect: "C05.R7/movegen.(generator).knightMoves#targets"},
+	)
 }
